@@ -599,10 +599,21 @@ class SymSeries(_RowsMixin, SymBase):
         return self.to_frame("_v").sort_index(ascending=ascending)["_v"]._with(name=self.name)
 
     def value_counts(self, sort=None, ascending=False, dropna=True, normalize=False, **kw):
-        if not dropna:
-            raise Unsupported("value_counts(dropna=False)")
         from .groupby import group_reduce
 
+        if not dropna:
+            # missing values are counted under the missing label (NAN_LABEL convention of groupby(dropna=False); values stay below it)
+            from .core import NAN_LABEL
+
+            labels = [If(c.null, NAN_LABEL, c.num()) for c in self.cells()]
+            key = [[Cell(l, F, "i") for l in labels]]
+            first, aggs = group_reduce(key, list(self.valid), self.order, [("size", self.cells())])
+            idx = Idx(labels, self.name, True, nan=True)
+            out = SymSeries("count", Col.from_cells(aggs[0], "i"), first, idx, [("vc", p) for p in self.prov], None)
+            if normalize:
+                total = Cell(count(list(self.valid)), F, "i")
+                out = SymSeries("proportion", Col.from_cells([cell_binop("truediv", c, total) for c in out.cells()], "f"), first, idx, out.prov, None)
+            return out
         key = [self.cells()]
         valid = [And(v, Not(c.null)) for v, c in zip(self.valid, self.cells())]
         first, aggs = group_reduce(key, valid, self.order, [("count", self.cells())])
